@@ -815,6 +815,22 @@ impl SettlementService {
             .ok_or(RuntimeError::UnknownWorldline(target_worldline))?
             .state()
             .clone();
+        // A patch is a diff and carries no read values, so overlap revalidation
+        // also follows the strand's own state, entry by entry, from the fork basis.
+        let mut source_simulated = match basis_overlap_slots {
+            Some(_) => Some(
+                provenance.replay_worldline_state_at(
+                    delta.source_lane_id,
+                    runtime
+                        .worldlines()
+                        .get(&delta.source_lane_id)
+                        .ok_or(RuntimeError::UnknownWorldline(delta.source_lane_id))?
+                        .state(),
+                    delta.source_suffix_start_tick,
+                )?,
+            ),
+            None => None,
+        };
         let mut blocked_reason = None;
 
         for source_ref in &delta.source_entries {
@@ -896,13 +912,17 @@ impl SettlementService {
                 continue;
             }
 
+            // Clean also requires the parent to hold, on every overlapped slot,
+            // the value the strand held after this entry (what it read or wrote).
+            let source_agrees = source_simulated.as_mut().is_some_and(|source| {
+                patch.apply_to_worldline_state(source).is_ok()
+                    && overlap_slots_are_clean(source, &candidate_simulated, &entry_overlap_slots)
+            });
             let overlap_revalidation = if entry_overlap_slots.is_empty() {
                 None
-            } else if overlap_slots_are_clean(
-                &simulated,
-                &candidate_simulated,
-                &entry_overlap_slots,
-            ) {
+            } else if source_agrees
+                && overlap_slots_are_clean(&simulated, &candidate_simulated, &entry_overlap_slots)
+            {
                 Some(StrandOverlapRevalidation::Clean {
                     overlapping_slots: entry_overlap_slots,
                 })
